@@ -746,6 +746,11 @@ def pyShapeAt (shape : List Nat) (slice_dim : Option Nat) : Except PyErr Nat :=
   | some d => .ok shape[d]!
   | none => .error PyErr.typeError
 
+/-- a value that must not be None where it is used (`None * 2`, `range(None)`: TypeError) -/
+def pyGet {β : Type} : Option β → Except PyErr β
+  | some b => .ok b
+  | none => .error PyErr.typeError
+
 /-- `a // b` of naturals: `ZeroDivisionError` for a zero divisor -/
 def pyFloorDiv (a b : Nat) : Except PyErr Nat := if b == 0 then .error PyErr.zeroDivision else .ok (a / b)
 
@@ -768,6 +773,7 @@ GROUP_OF = {
     'get_shape_counts': 'stack', 'chk_order_check': 'stack',
     'global_slice_subset': 'values', 'insert_slice_interleave': 'values', 'insert_sample_interleave': 'values',
     'copy_slice_dest': 'values', 'copy_slice_vals': 'values', 'get_changed_class': 'values',
+    'change_class': 'insert', 'insert_slice': 'insert', 'insert_non_slice': 'insert', 'insert_sample': 'insert',
     'get_data_trim': 'data', 'file_idx_volume': 'data', 'file_idx_slice': 'data', 'get_data': 'data',
 }
 GROUP_IMPORTS = {
@@ -781,6 +787,7 @@ GROUP_IMPORTS = {
     'stack': ['DcmVerif.Generated.PyPrelude'],
     'data': ['DcmVerif.Generated.PyPrelude', 'DcmVerif.Model.Wrap'],
     'values': ['DcmVerif.Generated.Code_classes'],
+    'insert': ['DcmVerif.Generated.Code_values'],
 }
 GEN_DIR = os.environ.get('GEN_CODE_DIR', os.path.normpath(os.path.join(HERE, '..', 'lean', 'DcmVerif', 'Generated')))
 
@@ -1061,6 +1068,51 @@ def translate():
              '`DcmMetaExtension._get_changed_class` (dcmmeta.py), translated statement by statement over the value list of the key: '
              '`get_values_and_class(key)` is the parameters `values` / `curr_class`; a constant (and the `None` of an absent key) is a '
              'one-element list, so `values = [values]` is the identity and `result[0]` keeps the list')
+    # ---- per-key dictionary edits of merges (group `insert`): _change_class, _insert_slice, _insert_non_slice, _insert_sample
+    KD_SIG = ('{α : Type} [DecidableEq α] (null : α) (self_shape : List Nat) (self_n_slices : Option Nat) (d : KeyDict α) ')
+    f = find_func(dm, 'DcmMetaExtension', '_change_class')
+    if f is None:
+        missing.append('change_class: not found')
+    else:
+        tr = TrKeyDict({'curr_class == new_class': '(curr_class == some new_class)'},
+                       {'self._get_changed_class(key, new_class)':
+                        'get_changed_class self_shape self_n_slices values curr_class new_class none'},
+                       cls_vars=['new_class'])
+        tr.allow_absent = True
+        tr.opt_locals = {'curr_class'}
+        emit('change_class', KD_SIG + '(new_class : Cls) : Except PyErr (KeyDict α)',
+             f.body + [ast.parse('return').body[0]], tr,
+             '`DcmMetaExtension._change_class` (dcmmeta.py) for one key, translated statement by statement over `KeyDict` (the classes '
+             'holding the key); falling off the end returns the edited dictionaries',
+             prologue=['let mut d_ := d'])
+    other_attrs = {'self.slice_dim': 'self_slice_dim', 'self.n_slices': '(← pyGet self_n_slices)', 'other.n_slices': '(← pyGet other_n_slices)',
+                   'self.shape': 'self_shape', 'other.shape[3]': '(other_shape)[3]!', 'self._content': 'content'}
+    OTHER_SIG = ('(self_slice_dim : Option Nat) (content : List String) (other_shape : List Nat) (other_n_slices : Option Nat) '
+                 '(other_values : List α) (other_class : Option Cls)')
+
+    def other_calls(classes):
+        return {'other._get_changed_class(key, %s, self.slice_dim)' % c:
+                'get_changed_class other_shape other_n_slices other_values other_class %s self_slice_dim' % l
+                for c, l in classes.items()}
+    for nm, extra_sig in (('_insert_slice', ''), ('_insert_non_slice', ''), ('_insert_sample', ' (sample_base : String)')):
+        f = find_func(dm, 'DcmMetaExtension', nm)
+        lean_nm = nm.lstrip('_')
+        if f is None:
+            missing.append(lean_nm + ': not found')
+            continue
+        tr = TrKeyDict(dict(other_attrs),
+                       other_calls({'classes': 'classes', "('global', 'slices')": 'Cls.gslices',
+                                    "(dest_base, 'slices')": '(Cls.ofBaseSub dest_base "slices")',
+                                    "(sample_base, 'samples')": '(Cls.ofBaseSub sample_base "samples")'}),
+                       cls_vars=['classes'])
+        tr.base_vars = {'dest_base', 'sample_base'}
+        tr.list_vars = {'local_vals', 'other_vals', 'intlv'}
+        emit(lean_nm, KD_SIG + OTHER_SIG + extra_sig + ' : Except PyErr (KeyDict α)',
+             f.body + [ast.parse('return').body[0]], tr,
+             '`DcmMetaExtension.%s` (dcmmeta.py) for one key, translated statement by statement: the dictionaries of `self` are the '
+             '`KeyDict` `d`, `other` is read through its shape, slice count and the key\'s values / class; '
+             '`local_vals` is an alias of the stored list (`extend` writes it back under the class it was read from)' % nm,
+             prologue=['let mut d_ := d'])
     # ---- check_valid
     f = find_func(dm, 'DcmMetaExtension', 'check_valid')
     if f is None:
